@@ -1,5 +1,7 @@
 import Enc.Lemmas.Proto
 import Enc.Lemmas.ProtoDecode
+import Enc.Lemmas.ProtoDepthSkip
+import Enc.Lemmas.ProtoDeepChain
 import Enc.Lemmas.ProtoScanUnmarshal
 import Enc.Lemmas.ProtoScanTrunc
 /-!
@@ -42,22 +44,22 @@ returns a value or an error: the index arithmetic of the decoders (every slice e
 bounds rules) never goes out of range. -/
 theorem unmarshal_ne_panic (t : Ty) (b : Bytes) (e : String) (h : Codec.Supported (codecOf t) = true) :
     unmarshal t b ≠ .panic e :=
-  Lemmas.ProtoDecode.unmarshal_ne_panic t b e h
+  Lemmas.ProtoDepth.unmarshal_ne_panic t b e h
 
 /-- the recursion always finishes within the model's budget (no input drives the decoder into unbounded descent) -/
 theorem unmarshal_ne_fuel (t : Ty) (b : Bytes) : unmarshal t b ≠ .err "fuel" :=
-  Lemmas.ProtoDecode.unmarshal_ne_fuel t b
+  Lemmas.ProtoDepth.unmarshal_ne_fuel t b
 
 /-- a decoder never claims more bytes than it was given -/
-theorem decode_bound (fuel : Nat) (c : Codec) (b : Bytes) (cur : Val) (fl : Flags) (v : Val) (n : Nat)
-    (h : decode fuel c b cur fl = .ok (v, n)) : n ≤ b.length :=
-  Lemmas.ProtoDecode.decode_bound fuel c b cur fl v n h
+theorem decode_bound (fuel d : Nat) (c : Codec) (b : Bytes) (cur : Val) (fl : Flags) (v : Val) (n : Nat)
+    (h : decode fuel d c b cur fl = .ok (v, n)) : n ≤ b.length :=
+  Lemmas.ProtoDepth.decode_bound fuel d c b cur fl v n h
 
 /-- the struct loop succeeds only at the end of its buffer: no partial consumption is ever reported as success -/
-theorem decodeStruct_consumes_all (fuel : Nat) (fs : CFields) (b : Bytes) (lenB : Nat) (vs : Vals) (fl : Flags)
-    (off : Nat) (vs' : Vals) (n : Nat) (h : decodeStruct fuel fs b lenB vs fl off = .ok (vs', n)) :
+theorem decodeStruct_consumes_all (fuel d : Nat) (fs : CFields) (b : Bytes) (lenB : Nat) (vs : Vals) (fl : Flags)
+    (off : Nat) (vs' : Vals) (n : Nat) (h : decodeStruct fuel d fs b lenB vs fl off = .ok (vs', n)) :
     n = off + b.length :=
-  Lemmas.ProtoDecode.decodeStruct_consumes_all fuel fs b lenB vs fl off vs' n h
+  Lemmas.ProtoDepth.decodeStruct_consumes_all fuel d fs b lenB vs fl off vs' n h
 
 /-- **MAIN (unknown fields).** A well-formed record (tag + payload of wire type 0, 1, 2 or 5; over-long varints
 included) whose field number the target does not declare, placed in front of a message body, does not change what
@@ -65,19 +67,78 @@ included) whose field number the target does not declare, placed in front of a m
 theorem unmarshal_skip_front (Fs : Fields) (number : Nat) (rec body : Bytes)
     (hlk : lookupField (fieldsOf 1 Fs) number = none) (hrec : IsRecord number rec) :
     unmarshal (.struct Fs) (rec ++ body) = unmarshal (.struct Fs) body :=
-  Lemmas.ProtoDecode.unmarshal_skip_front Fs number rec body hlk hrec
+  Lemmas.ProtoDepth.unmarshal_skip_front Fs number rec body hlk hrec
 
 /-- … nor when it is inserted after any prefix of the message that decodes on its own (i.e. at a field boundary) -/
 theorem unmarshal_skip_anywhere (Fs : Fields) (number : Nat) (pre rec rest : Bytes) (v1 : Val)
     (hlk : lookupField (fieldsOf 1 Fs) number = none) (hrec : IsRecord number rec)
     (hpre : unmarshal (.struct Fs) pre = .ok v1) :
     unmarshal (.struct Fs) (pre ++ (rec ++ rest)) = unmarshal (.struct Fs) (pre ++ rest) :=
-  Lemmas.ProtoDecode.unmarshal_skip_anywhere Fs number pre rec rest v1 hlk hrec hpre
+  Lemmas.ProtoDepth.unmarshal_skip_anywhere Fs number pre rec rest v1 hlk hrec hpre
 
 /-- what the encoder writes for an undeclared field is such a record (non-vacuity of `IsRecord`) -/
 theorem isRecord_canonical (number : Nat) (w : Wire) (p : Bytes) (h : number < 2 ^ 61)
     (hp : IsPayload w.num p) : IsRecord number (encodeTag number w ++ p) :=
   Lemmas.ProtoDecode.isRecord_canonical number w p h hp
+
+/-! ## the nesting limit (commit b70a382: `proto.maxDepth` = 10000, counted in the upper bits of the decode flags) -/
+
+open Lemmas.ProtoDepth in
+/-- **the limit changes nothing else.** On EVERY input the decoder with the counter either returns exactly what the
+decoder without it returns — value, byte count, error or panic — or the new error. -/
+theorem limit_only_adds_an_error (t : Ty) (b : Bytes) :
+    unmarshal t b = unmarshalU t b ∨ unmarshal t b = .err "nestingTooDeep" :=
+  Lemmas.ProtoDepth.unmarshal_eq_or_deep t b
+
+open Lemmas.ProtoDepth in
+/-- **the limit is invisible for message types at most `maxDepth` messages high** (`Codec.nesting`: messages, repeated
+elements and map entries count, pointers do not): there the two decoders are the same function. This is the hypothesis
+under which the round-trip and reference-decoder theorems of C03 / C12 are stated. -/
+theorem limit_invisible_below (t : Ty) (b : Bytes) (h : Codec.nesting (codecOf t) ≤ Gen.c_proto_maxDepth) :
+    unmarshal t b = unmarshalU t b :=
+  Lemmas.ProtoDepth.unmarshal_eq_unmarshalU t b h
+
+/-- **depth_limit.** No struct decoder runs more than `maxDepth` messages deep: entered with `maxDepth` messages already
+around it, it fails before it looks at its input — whatever the fields, the bytes, the target and the other flags (so
+the recursion of `Unmarshal` is at most `maxDepth` struct decoders deep on every input, for every type). -/
+theorem depth_limit (fuel d : Nat) (fs : CFields) (b : Bytes) (cur : Val) (fl : Flags)
+    (hd : Gen.c_proto_maxDepth ≤ d) : decode (fuel + 1) d (.struct fs) b cur fl = .err "nestingTooDeep" := by
+  have : d + 1 > Gen.c_proto_maxDepth := by omega
+  simp [decode, this]
+
+/-- … and the counter is exact: one below the limit the struct decoder does run (here: on the empty body) -/
+theorem depth_limit_sharp (fuel : Nat) (fs : CFields) (vs : Vals) (fl : Flags) :
+    decode (fuel + 2) (Gen.c_proto_maxDepth - 1) (.struct fs) [] (.struct vs) fl = .ok (.struct vs, 0) := by
+  simp [decode, decodeStruct, Res.bind, Gen.c_proto_maxDepth]
+
+/-! ### on a recursive message type: `type R struct { Next *R; V int32 }`
+(`chainC n` = its codec unrolled `n` times, `nest k inner` = `inner` wrapped `k` times as field 1 — the inputs of the
+harness ops `proto.deepr` / `proto.deep`; proofs in Enc/Lemmas/ProtoDeepChain.lean) -/
+
+open Lemmas.ProtoDepth in
+/-- **deep_rejected.** The nesting limit is real: `maxDepth` wrappers around ANY bytes — `maxDepth + 1` messages — are
+refused with the nesting error, however far the type is unrolled and however much budget the decoder is given … -/
+theorem deep_rejected (inner : Bytes) (n fuel : Nat) (fl : Flags) (hn : Gen.c_proto_maxDepth ≤ n)
+    (hlen : (nest Gen.c_proto_maxDepth inner).length < 2 ^ 64) (hf : 3 * Gen.c_proto_maxDepth + 1 ≤ fuel) :
+    decode fuel 0 (chainC n) (nest Gen.c_proto_maxDepth inner) (zeroOfCodec (chainC n)) fl = .err "nestingTooDeep" :=
+  Lemmas.ProtoDepth.deep_rejected inner n fuel fl hn hlen hf
+
+open Lemmas.ProtoDepth in
+/-- **max_depth_accepted.** … and sharp: `maxDepth - 1` wrappers around the empty message — `maxDepth` messages — are
+accepted and consumed completely. -/
+theorem max_depth_accepted (n fuel : Nat) (fl : Flags) (hn : Gen.c_proto_maxDepth - 1 ≤ n)
+    (hlen : (nest (Gen.c_proto_maxDepth - 1) []).length < 2 ^ 64) (hf : 3 * Gen.c_proto_maxDepth ≤ fuel) :
+    ∃ v, decode fuel 0 (chainC n) (nest (Gen.c_proto_maxDepth - 1) []) (zeroOfCodec (chainC n)) fl
+      = .ok (v, (nest (Gen.c_proto_maxDepth - 1) []).length) :=
+  Lemmas.ProtoDepth.max_depth_accepted n fuel fl hn hlen hf
+
+open Lemmas.ProtoDepth in
+/-- the length hypotheses are satisfiable: such inputs are a few tens of kilobytes long -/
+example (inner : Bytes) (h : inner.length < 2 ^ 63) : (nest Gen.c_proto_maxDepth inner).length < 2 ^ 64 := by
+  have := nest_length_le Gen.c_proto_maxDepth inner
+  simp only [Gen.c_proto_maxDepth] at this ⊢
+  omega
+
 
 /-! ## the wire-level API: `Parse` and `Scan` (model `Enc/Model/ProtoScan.lean`, reference `Spec.Protobuf.records`)
 
